@@ -85,6 +85,65 @@ def run_one(case, hist_root, index):
         return {"doc": f"EXC:{type(e).__name__}:{where}", "warn": ""}
 
 
+def run_md_reuse(case):
+    """ONE MarkdownIt object from create_md_parser(config, DocutilsRenderer) renders several texts in turn (the public
+    helper; md.options['document'] is replaced before each render).  Returns one observation per text."""
+    import io as _io
+
+    from myst_parser.config.main import MdParserConfig
+    from myst_parser.mdit_to_docutils.base import DocutilsRenderer, make_document
+    from myst_parser.parsers.docutils_ import Parser
+    from myst_parser.parsers.mdit import create_md_parser
+    cfg = dict(case.get("config", {}))
+    if "enable_extensions" in cfg:
+        cfg["enable_extensions"] = set(cfg["enable_extensions"])
+    md = create_md_parser(MdParserConfig(**cfg), DocutilsRenderer)
+    outs = []
+    for text in case["texts"]:
+        try:
+            doc = make_document("<md-reuse>", parser_cls=Parser)
+            ws = _io.StringIO()
+            doc.settings.warning_stream = ws
+            doc.reporter.stream = ws
+            doc.settings.report_level = 2
+            doc.reporter.report_level = 2
+            md.options["document"] = doc
+            md.render(text)
+            slugs = sorted(getattr(doc, "myst_slugs", {}))
+            outs.append({"doc": ADDR.sub(" at 0x?", doc.pformat()) + "\nSLUGS " + repr(slugs), "warn": ADDR.sub(" at 0x?", ws.getvalue())})
+        except BaseException as e:  # noqa: BLE001
+            outs.append({"doc": f"EXC:{type(e).__name__}:{e}"[:200], "warn": ""})
+    return outs
+
+
+def run_shared_settings(case):
+    """Several docutils publish calls that share ONE settings object (as Sphinx does for all documents of a process and
+    as docutils users may): returns one observation per (text) of the case."""
+    import io as _io
+
+    from docutils.core import publish_doctree
+    from docutils.frontend import OptionParser
+    from docutils.readers.standalone import Reader
+    from docutils.writers.null import Writer
+
+    from myst_parser.parsers.docutils_ import Parser
+    settings = OptionParser(components=(Parser, Reader, Writer)).get_default_values()
+    for k, v in case.get("settings", {}).items():
+        setattr(settings, k, set(v) if k == "myst_enable_extensions" else v)
+    settings.report_level = 2
+    settings.halt_level = 5
+    outs = []
+    for text in case["texts"]:
+        ws = _io.StringIO()
+        settings.warning_stream = ws
+        try:
+            doc = publish_doctree(text, source_path="<shared-settings>", parser=Parser(), settings=settings)
+            outs.append({"doc": ADDR.sub(" at 0x?", doc.pformat()), "warn": ADDR.sub(" at 0x?", ws.getvalue())})
+        except BaseException as e:  # noqa: BLE001
+            outs.append({"doc": f"EXC:{type(e).__name__}:{e}"[:200], "warn": ""})
+    return outs
+
+
 def _fn_id(f):
     return f"{getattr(f, '__module__', '?')}.{getattr(f, '__qualname__', repr(f))}"
 
@@ -125,7 +184,8 @@ def run_merge(case):
     after = dc.asdict(cfg)
     shared = sorted(k for k, v in vars(new).items() if isinstance(v, (dict, set, list)) and id(v) == ids.get(k)
                     and case["topmatter"].get("myst", {}).get(k) is not None) if isinstance(case["topmatter"].get("myst"), dict) else []
-    return {"doc": "MERGE", "warn": "", "config_changed": before != after, "returned_same_object": new is cfg,
+    all_shared = sorted(k for k, v in vars(new).items() if isinstance(v, (dict, set, list)) and id(v) == ids.get(k))
+    return {"doc": "MERGE", "warn": "", "all_shared_mutable": all_shared, "config_changed": before != after, "returned_same_object": new is cfg,
             "before": repr(before)[:600], "after": repr(after)[:600], "shared_mutable": shared}
 
 
@@ -140,6 +200,10 @@ def run_history(cases, timeout=120):
                 out_initial = dump_cells()
             else:
                 out_initial = None
+            if cases and cases[0].get("kind") in ("md_reuse", "shared_settings"):
+                # one case = one whole history at the level of a re-used parser object / a shared settings object
+                fn = run_md_reuse if cases[0]["kind"] == "md_reuse" else run_shared_settings
+                return fn(cases[0])
             for n, c in enumerate(cases):
                 r = run_one(c, hist_root, n)
                 if n == 0 and out_initial is not None:
